@@ -9,8 +9,8 @@ import (
 	"net"
 	"reflect"
 	"regexp"
-	"time"
 	"strings"
+	"time"
 )
 
 const (
